@@ -314,8 +314,11 @@ def check(pid, tier, only=None, jobs=None, seed=0, quiet=False):
     shutil.rmtree(workdir, ignore_errors=True)
 
     # --- report
+    printed = set()
     for f, args in status['known_seen']:
-        log('KNOWN-FINDING: property=%s %s' % (pid, f['what']))
+        if f['what'] not in printed:
+            printed.add(f['what'])
+            log('KNOWN-FINDING: property=%s %s' % (pid, f['what']))
     for label, path, rep in status['violations']:
         log('VIOLATION property=%s replay=%s' % (pid, path))
         log('  obligation %s: %s' % (label, json.dumps(rep)))
